@@ -81,3 +81,25 @@ def overcommit_cases():
     tail = st.lists(st.one_of(reduce_, reduce_, release, release, release, merge, reserve, grow), min_size=3, max_size=14)
     return st.builds(lambda ca, cb, rs, t: {'ops': [['add', 'a', ca], ['add', 'b', cb]] + rs + t},
                      st.sampled_from([2, 3, 4]), st.sampled_from([1, 2]), st.lists(reserve, min_size=2, max_size=4), tail)
+
+
+def overcommit_waiter_cases(consume_only=True):
+    """Waiters in front of pools that are driven over capacity: reservations over two pools (both key orders), one pool
+    then cut to or below its usage, waiters for the other pool, and releases of the two-pool reservations."""
+    beh = consume_behaviour() if consume_only else behaviour()
+    tb = st.tuples(st.sampled_from(['random', 'fifo', 'lifo', 'const']), st.integers(0, 10 ** 6)).map(list)
+    two = st.sampled_from([{'a': 1, 'b': 1}, {'b': 1, 'a': 1}, {'b': 1, 'a': 2}, {'a': 1, 'b': 2}, {'a': 1}, {'b': 1}])
+    reserve = st.tuples(st.just('reserve'), two).map(list)
+    cut = st.tuples(st.just('add'), st.sampled_from(['a', 'b']), st.sampled_from([-1, -2, -3])).map(list)
+    small = st.sampled_from([{'a': 1}, {'b': 1}, {'a': 2}, {'a': 1, 'b': 1}, {'b': 1, 'a': 1}, {'a': 1, 'zzz': 0}])
+    register = st.tuples(st.just('register'), small, beh, st.just(False), st.just(False)).map(list)
+    release = st.tuples(st.just('release'), st.integers(0, 4)).map(list)
+    advance = st.tuples(st.just('advance'), st.sampled_from([0, 1])).map(list)
+    grow = st.tuples(st.just('add'), st.sampled_from(['a', 'b']), st.sampled_from([1, 2])).map(list)
+    tail = st.lists(st.one_of(release, release, release, advance, advance, register, cut, grow, reserve), min_size=4,
+                    max_size=16)
+    return st.builds(lambda t, ca, cb, rs, cuts, regs, tl: {'tb': t, 'ops': [['add', 'a', ca], ['add', 'b', cb]] + rs
+                                                           + [['advance', 1]] + cuts + regs + [['advance', 1]] + tl
+                                                           + [['advance', 1]]},
+                     tb, st.sampled_from([2, 3, 4]), st.sampled_from([2, 3]), st.lists(reserve, min_size=2, max_size=4),
+                     st.lists(cut, min_size=1, max_size=2), st.lists(register, min_size=1, max_size=3), tail)
